@@ -154,17 +154,20 @@ package trace
 // status precedence Unset < Error < Ok; description only with Error; nothing changes once the span has ended
 //@ func (s *recordingSpan) SetStatus(code codes.Code, description string)
 //@   prop C04 C10
+//@   acquires s.mu
 //@   modifies s.status
 //@   ensures s != nil && (!old(s.endTime.IsZero()) || old(s.status.Code) > code) ==> s.status == old(s.status)
 //@   ensures s != nil && old(s.endTime.IsZero()) && old(s.status.Code) <= code ==> s.status.Code == code && s.status.Description == ite(code == codes.Error, description, "")
 
 //@ func (s *recordingSpan) SetName(name string)
 //@   prop C04 C10
+//@   acquires s.mu
 //@   modifies s.name
 //@   ensures s != nil ==> s.name == ite(old(s.endTime.IsZero()), name, old(s.name))
 
 //@ func (s *recordingSpan) addChild()
 //@   prop C04 C10
+//@   acquires s.mu
 //@   overflow assumed
 //@   modifies s.childSpanCount
 //@   ensures s != nil ==> s.childSpanCount == ite(old(s.endTime.IsZero()), old(s.childSpanCount) + 1, old(s.childSpanCount))
@@ -176,6 +179,7 @@ package trace
 
 //@ func (s *recordingSpan) IsRecording() (r bool)
 //@   prop C10
+//@   acquires s.mu
 //@   ensures r == (s != nil && s.endTime.IsZero())
 
 // per-event attribute cap, then the FIFO contract
@@ -191,6 +195,7 @@ package trace
 
 //@ func (s *recordingSpan) AddEvent(name string, o []trace.EventOption)
 //@   prop C04 C10
+//@   acquires s.mu
 //@   unchecked frame the option plumbing in trace.NewEventConfig (other module) is not under contract
 //@   requires s == nil || (s.tracer != nil && s.tracer.provider != nil)
 //@   ensures s != nil && !old(s.endTime.IsZero()) ==> s.events == old(s.events)
@@ -198,6 +203,7 @@ package trace
 // per-link attribute cap; the empty link is ignored; nothing after End
 //@ func (s *recordingSpan) AddLink(link trace.Link)
 //@   prop C04 C10
+//@   acquires s.mu
 //@   requires s == nil || (s.tracer != nil && s.tracer.provider != nil)
 //@   modifies s.links, elemscap(s.links.queue)
 //@   ensures s != nil && !old(s.endTime.IsZero()) ==> s.links == old(s.links)
@@ -228,6 +234,7 @@ package trace
 
 //@ func (s *recordingSpan) End(options []trace.SpanEndOption)
 //@   prop C10
+//@   acquires s.mu
 //@   unchecked no-panic,frame processors are third-party values loaded from an atomic pointer; option plumbing in trace.NewSpanEndConfig is not under contract
 //@   requires s == nil || (s.tracer != nil && s.tracer.provider != nil)
 //@   modifies ghost ends
@@ -268,6 +275,7 @@ package trace
 
 //@ func truncateAttr(limit int, attr attribute.KeyValue) (r attribute.KeyValue)
 //@   prop C04
+//@   pure
 //@   unchecked no-panic,frame string-slice values are unpacked and rebuilt through reflect (attribute/internal)
 //@   ensures r.Key == attr.Key
 //@   ensures limit < 0 ==> r == attr
@@ -283,6 +291,7 @@ package trace
 //@   modifies s.attributes, elemscap(s.attributes), s.droppedAttributes
 //@   ensures uniqueKeys(s.attributes) && len(s.attributes) <= limit
 //@   ensures s.droppedAttributes >= old(s.droppedAttributes)
+//@   assert@store elem#* : $val == truncateAttr(s.tracer.provider.spanLimits.AttributeValueLengthLimit, attrs[$k])
 //@   loop#1 invariant indexed(s.attributes, exists)
 //@   loop#1 invariant len(s.attributes) <= limit && s.droppedAttributes >= old(s.droppedAttributes) && exists != nil
 //@   loop#1 invariant fresh(s.attributes) || (samearray(s.attributes, old(s.attributes)) && cap(s.attributes) == cap(old(s.attributes)))
@@ -292,6 +301,7 @@ package trace
 // path every offered attribute is either stored or counted as dropped
 //@ func (s *recordingSpan) SetAttributes(attributes []attribute.KeyValue)
 //@   prop C04 C10
+//@   acquires s.mu
 //@   overflow assumed
 //@   unchecked frame the array part of the frame (in-place append window after slices.Grow) is undecided by all three solvers; the object part is kept as a loop invariant
 //@   requires s == nil || (s.tracer != nil && s.tracer.provider != nil && (attrLimit(s) > 0 ==> len(s.attributes) <= attrLimit(s)))
@@ -301,6 +311,7 @@ package trace
 //@   ensures s != nil && attrLimit(s) > 0 ==> len(s.attributes) <= attrLimit(s)
 //@   ensures s != nil && old(s.endTime.IsZero()) && attrLimit(s) != 0 && !(attrLimit(s) > 0 && old(len(s.attributes)) + len(attributes) > attrLimit(s)) ==> len(s.attributes) + s.droppedAttributes == old(len(s.attributes)) + old(s.droppedAttributes) + len(attributes)
 //@   assert@call recordingSpan.addOverCapAttrs#1 : limit > 0 && len(s.attributes) + len(attributes) > limit
+//@   assert@store elem#* : $val == truncateAttr(s.tracer.provider.spanLimits.AttributeValueLengthLimit, attributes[$k])
 //@   loop#1 invariant len(s.attributes) + s.droppedAttributes == old(len(s.attributes)) + old(s.droppedAttributes) + $k
 //@   loop#1 invariant len(s.attributes) <= old(len(s.attributes)) + $k
 //@   loop#1 invariant s.droppedAttributes >= old(s.droppedAttributes)
